@@ -631,6 +631,34 @@ def multi_ret_variants(d):
     return out
 
 
+def ctxval_variants(d):
+    """one provided pointer type becomes a context.Context VALUE returned by its provider (only where nobody asks for the
+    injector's own context, which has the same Go type)"""
+    out = []
+    if not accepts(d) or any('ctx' in p.get('requires', []) for p in d['providers']) or d.get('pkg_ctx'):
+        return out
+    consumed = {r for p in d['providers'] for r in p.get('requires', [])}
+    k = 0
+    for p in d['providers']:
+        if p['kind'] != 'fn' or len(p['provides']) != 1 or len(p['provides'][0]) != 1 or p.get('as_value_call'):
+            continue
+        t = p['provides'][0][0]
+        ty = d['types'][t]
+        if ty['form'] != 'ptr' or 'fields' in ty or ty.get('alias') or ty.get('is_error') or t not in consumed or t == d['ret']:
+            continue
+        if any(t in [f_[1] for f_ in x.get('fields', [])] for x in d['types'].values()):
+            continue
+        v = copy.deepcopy(d)
+        v['types'][t] = {'form': 'ctxval'}
+        v['id'] = '%sx%d' % (d['id'], k)
+        v['injector'] = 'Init_' + v['id']
+        k += 1
+        out.append(v)
+        if k >= 2:
+            break
+    return out
+
+
 def plant_orphan(d):
     if not accepts(d):
         return []
